@@ -254,6 +254,17 @@ func scribble(c *CfgCore) {
 			}
 		}
 	}
+	for i := range c.Peers {
+		c.Peers[i].S = poisonS
+		if c.Peers[i].X != nil {
+			*c.Peers[i].X = poisonI
+		}
+	}
+	for _, n := range c.PM {
+		if n != nil {
+			n.S = poisonS
+		}
+	}
 	for _, m := range c.MA {
 		if m != nil {
 			m[poisonS] = poisonI
